@@ -32,7 +32,11 @@ BENIGN_WORDS = ["x", "in.txt", "out_1", "7", "a-b", "$HOME", "*.nii", "a;b", "k=
                 # are ordinary bytes for the model and must arrive as ONE argument (str.split() would break them).
                 # Never at the edge of a value: Python's str.strip() in argstr_formatting strips Unicode whitespace,
                 # which the byte-string model cannot express.
-                "10\u00a0mm", "Shot_10.30\u202fAM", "全\u3000角", "a\u0085b", "a\u2009b", "x\u2028y"]
+                "10\u00a0mm", "Shot_10.30\u202fAM", "全\u3000角", "a\u0085b", "a\u2009b", "x\u2028y",
+                # values containing text the code itself treats specially elsewhere: the '...' repetition marker,
+                # brackets and commas of the clean-up, separators, flag-like text
+                "wait...", "a...b", "...", "....x", "v1...2...3", "[x]", "a,,b", "x[1],y", "-f", "--flag", "k:v;w+z",
+                "-D=1", "--opt=val", "=", "-"]
 # ASCII control characters that str.split()/str.strip() treat as whitespace but shlex does not (interior only)
 CONTROL_WS_WORDS = ["x\x0cy", "p\x1cq", "a\x1db", "a\x1eb", "m\x1fn", "v\x0bw"]
 # the C23 alphabet: whitespace, quotes, backslash, shell metacharacters, unicode, brackets/commas (bracket clean-up)
@@ -41,7 +45,11 @@ NASTY_WORDS = ["a b", "it's", 'say "hi"', "back\\slash", "tab\there", "a  b", " 
                "a\\ b", "$(x) `y`", "*?;|&", "a[,b", "[ x ]", ",]", "[,", "x,]y", "é è", "日 本", "a\nb", "new\n", "'a'\n",
                "\"x", "x'", "a'b'c", "''", '""', "\\'", "\\\"", "a\\", "a\x0bb", "\x1fa", "a\x1c",
                # tokens that still carry an outer quote pair after shlex (split_cmd's regular expression strips it)
-               "\"'x y'\"", "\\\"z\\\"", "'\"a\"'", "\\'k\\'", "\"'n'\n\""]
+               "\"'x y'\"", "\\\"z\\\"", "'\"a\"'", "\\'k\\'", "\"'n'\n\"",
+               # arguments mixing '-', '=' and blanks in every order (free arguments pass through untouched; quoted, a
+               # templated value keeps its blank inside ONE argument: --t='My Study' -> "--t=My Study")
+               "-D NAME=some value", "--title=My Study", "-x a=b c", "-o=a b", "- =", "=- x", "a =b", "-a b", "--k v=w",
+               "-=x y", "'My Study'", "\"some value\"", "NAME='a b'", "-D 'N=a b'", "wait... for it"]
 BRACE_WORDS = ["{", "}", "a{b", "{x}", "{{", "}}", "{}", "a}b", "{a}}", "{{a}}", "{zz}", "}{"]
 
 
